@@ -510,13 +510,14 @@ class Analyzer:
             v = self._table_load(e, st)
             if v is not None:
                 return v
-            ck = self.cellkey(e)
-            if ck is not None and ck in st:
-                return st[ck]
             if self.load_hook:
+                # the caller's model of this memory cell takes precedence over the (weak) array summary
                 v = self.load_hook(self, e, st)
                 if v is not None:
                     return v
+            ck = self.cellkey(e)
+            if ck is not None and ck in st:
+                return st[ck]
             return self._node_range(e)
         if k == 'un':
             v = self.ev(e[2], st)
@@ -865,6 +866,24 @@ class Analyzer:
 
     # -- branch refinement
     def refine(self, st, c, pol):
+        """state after the branch on c took polarity pol; None if that is impossible.
+        The truth value of a side-effect-free condition is consulted first, so that an
+        edge is pruned even when the operands are not variables the state can refine."""
+        if st is not None and c is not None and not getattr(self, '_in_refine', False):
+            pure = not any(x[0] in ('assign', 'cassign', 'inc', 'call') for x in sx.walk(c))
+            if pure:
+                self._in_refine = True
+                try:
+                    t = self.truth(c, st)
+                finally:
+                    self._in_refine = False
+                if t == const(0) and pol:
+                    return None
+                if t == const(1) and not pol:
+                    return None
+        return self._refine(st, c, pol)
+
+    def _refine(self, st, c, pol):
         c = sx.strip_paren(c)
         k = sx.kind(c)
         if k == 'cast' and sx.A(c).get('impl'):
